@@ -48,7 +48,7 @@ theorem replaceKids_eq_replaceTop {h : Nat} {F : HTree → List HTree} : ∀ ks 
   | k :: ks => by
     intro nd ht
     obtain ⟨n1, n2, n3⟩ := nodup_handlesList_cons nd
-    rw [replaceKids_cons, replaceTop_cons]
+    rw [fs_replaceKids_cons, replaceTop_cons]
     by_cases hk : k.handle = h
     · rw [if_pos hk, if_pos hk]
     · rw [if_neg hk, if_neg hk]
@@ -119,7 +119,7 @@ mutual
     | k :: ks => by
       intro nd e ht
       obtain ⟨n1, n2, n3⟩ := nodup_handlesList_cons nd
-      rw [replaceKids_cons, List.map_cons]
+      rw [fs_replaceKids_cons, List.map_cons]
       cases hk : find? p k with
       | some t =>
         rw [findList?_cons_some hk] at e
